@@ -128,6 +128,7 @@ BaseWorld == <<
   C("lanelet_left",   "none", <<SC, NET, L2>>, << <<8, 3>>, <<12, 5>> >>, <<>>),
   C("lanelet_center", "none", <<SC, NET, L2>>, << <<8, 2>>, <<12, 4>> >>, <<>>),
   C("lanelet_right",  "none", <<SC, NET, L2>>, << <<8, 1>>, <<12, 3>> >>, <<>>),
+  C("stop_line",      "none", <<SC, NET, L2, <<"stop_line", "-">> >>, <<>>, <<>>),   \* a stop line without points: nothing stored, must not fail
   C("lanelet_polygon", "none", <<SC, NET, L2>>, << <<8, 1>>, <<8, 3>>, <<12, 5>>, <<12, 3>> >>, <<>>),
   C("lanelet_left",   "none", <<SC, NET, L3>>, << <<0, 4>>, <<4, 4>>, <<8, 5>> >>, <<>>),
   C("lanelet_center", "none", <<SC, NET, L3>>, << <<0, 3>>, <<4, 3>>, <<8, 4>> >>, <<>>),
